@@ -57,6 +57,22 @@ type openFile struct {
 // KeepOpLog makes the shim remember "op path" of every mutating operation (OpLog).
 var KeepOpLog bool
 var opLog []string
+var opLogMeta []OpMeta
+
+// OpMeta is one remembered FS operation with the scheduler step at which it ran and the task that ran it.
+type OpMeta struct {
+	Step int
+	Task string
+	Op   string
+	Path string
+}
+
+// OpLogMeta returns the remembered operations with their step stamps.
+func OpLogMeta() []OpMeta {
+	fsMu.Lock()
+	defer fsMu.Unlock()
+	return append([]OpMeta(nil), opLogMeta...)
+}
 
 // OpLog returns the remembered operations since the last ResetFS.
 func OpLog() []string {
@@ -100,6 +116,7 @@ func ResetFS() {
 	rdPlan = map[int64]Fault{}
 	openW = nil
 	opLog = nil
+	opLogMeta = nil
 	frozenProc = map[string]bool{}
 }
 
@@ -178,6 +195,7 @@ func hook(op, path string) error {
 	fsMu.Lock()
 	if KeepOpLog {
 		opLog = append(opLog, op+" "+relPath(path))
+		opLogMeta = append(opLogMeta, OpMeta{Step: Step(), Task: CurrentID(), Op: op, Path: path})
 	}
 	f, ok := fsPlan[n]
 	if ok {
